@@ -56,7 +56,16 @@ Step(st, op, v) ==
     [] op = "grid_append" -> Same([st EXCEPT !.child.grid = Append(@, <<v>>)], "")           \* o.cgrid.append([v])
     [] op = "grid_inner" -> IF st.child.grid = <<>> THEN Same(st, "IndexError")
                             ELSE Same([st EXCEPT !.child.grid[1] = Append(@, v)], "")      \* o.child.grid[0].append(v): unvalidated (Any)
+    \* a trait given to this one object at run time: add_trait("extra", Int) - from then on `extra` is validated
+    [] op = "addx" -> Same([st EXCEPT !.hasx = 1], "")
+    [] op = "extra_assign" -> IF st.hasx = 1 /\ v = Bad THEN Same(st, "TraitError")
+                              ELSE Same([st EXCEPT !.xval = v], "")                      \* (no such trait: a plain attribute)
     [] op = "child_items" -> IF v = Bad THEN Same(st, "TraitError") ELSE Same([st EXCEPT !.child.items = Append(@, v)], "")
-\* a copy: everything but the transient attribute (back at its default 0)
+\* a copy: everything but the transient attribute (back at its default 0) - including the traits the object was given
+\* with add_trait: the copy's `extra` is still a validated attribute
 Copied(st) == [st EXCEPT !.tmp = 0]
+\* Named deviation (known finding C14/F22): pickling, deep copying and clone_traits carry the VALUE of a trait added with
+\* add_trait but not the trait: on the copy the name is an ordinary, unvalidated attribute
+KF22Guard(pre) == pre.hasx = 1
+Copied_KF22(st) == [Copied(st) EXCEPT !.hasx = 0]
 =============================================================================
